@@ -126,6 +126,16 @@ def _case_eval(ev0, network, rec, node_i, elem_i, case):
         mine, lit = (n1, lit1) if case == 'ref1' else (n2, lit2)
         if lit is not True: return ('skip',)          # the node label is a loop variable over the map: never the reference
         ev.add_fact(mine - zero, '==0')
+    def membership(g_):
+        # `label in node_map` / `label in node_map.keys`: the labels of the node map are the nodes other than the reference
+        if isinstance(g_, Opq) and g_.k and g_.k[0] in ('and', 'or'): return ev.mkbool(g_.k[0], [membership(x_) for x_ in g_.k[1:]])
+        if isinstance(g_, Opq) and len(g_.k) == 2 and g_.k[0] == 'not': return ev.negate(membership(g_.k[1]))
+        if isinstance(g_, Opq) and len(g_.k) == 3 and g_.k[0] == 'in' and isinstance(g_.k[1], Poly) and isinstance(g_.k[2], Poly):
+            ma = g_.k[2].as_atom()
+            if isinstance(ma, tuple) and len(ma) == 3 and ma[0] == '.' and ma[2] == 'keys': ma = ma[1]
+            if ma == pn[1] or tkey(Poly.atom(ma)) == pn[1]: return ev.compare(ast.NotEq(), g_.k[1], zero)
+        return g_
+    guard = membership(guard)
     g = ev.refold(guard) if isinstance(guard, Opq) else guard
     if isinstance(g, Cond):
         # `if sign:` on a value selected by the same tests: decided in this case like the value itself
@@ -242,6 +252,11 @@ def admittance_table(prog):
             if len(parts) != 2 or any(p[0] != 'map' for p in parts): return {'undecided': 'index form', 'site': f.site}
             Lr, Lc = parts[0][2], parts[1][2]
             if not isinstance(Lr, Poly) or not isinstance(Lc, Poly): return {'undecided': 'labels', 'site': f.site}
+            if same(Lr, Lc):
+                if case == 'off': continue          # a store at (l, l): contributes to the diagonal only
+            elif case == 'diag' and any(isinstance(g_, Opq) and len(g_.k) == 2 and g_.k[0] == 'permutations' for g_ in gens) \
+                    and all(isinstance(L_.as_atom(), tuple) and L_.as_atom()[:1] == ('β',) for L_ in (Lr, Lc)):
+                continue                            # pairs of a permutations() generator sit at different positions: never on the diagonal (labels are unique)
             e2 = ev.fresh()
             e2.add_fact(Lr - Lc, '==0' if case == 'diag' else '!=0')
             g = e2.refold(guard) if isinstance(guard, Opq) else guard
